@@ -147,7 +147,7 @@ theorem readChunks_written (o : FileReal.Oracle) (cfg : Config) (hstrict : cfg.s
   | [], [], [], pos, pre, post, _, _, _, _, _, _, _, _, _, _, _ => by
     simp [readChunks, groupBytes]
   | c :: cs, m :: ms, ps :: pss, pos, pre, post, hcols, hall, hat, hfor, hof, hgood, hsmall, hfz, hpre, h4, hfs => by
-    obtain ⟨⟨m1, m2, _, m4, m5⟩, hall'⟩ := hall
+    obtain ⟨⟨m1, m2, m3, m4, m5⟩, hall'⟩ := hall
     obtain ⟨a1, hat'⟩ := hat
     obtain ⟨⟨f1, f2, _⟩, hfor'⟩ := hfor
     obtain ⟨o1, hof'⟩ := hof
@@ -171,14 +171,17 @@ theorem readChunks_written (o : FileReal.Oracle) (cfg : Config) (hstrict : cfg.s
       rw [hfile]; exact drop_take_middle' _ _ _ _ hpre.symm
     have hcs : chunkStart (cmOf m) = pos := by simp [chunkStart, cmOf, a1]
     have htc : (cmOf m).totalCompressed = (pagesBytes (deps o) ps).length := by simp [cmOf, m2]
+    have htu : (cmOf m).totalUncompressed = sumUsize (deps o) ps := by simp [cmOf, m3]
+    have husize := chunkUsize_written o cfg codec hcodec c ps ((pagesBytes (deps o) ps).length + 1)
+      (by have := pages_le_bytes ps hfacts; omega) hfacts
     have hpt : (cmOf m).ptype = ptypeCode (leafOf c).ptype := by simp [cmOf, leafOf, ptypeCode_spec, f1]
     have hpath : (cmOf m).path = (leafOf c).path.map File.strBytes := by simp [cmOf, leafOf, f2]
     simp only [List.map_cons, List.zipWith_cons_cons]
     unfold readChunks
-    simp only [hcs, htc, hpt, hpath, hstrict, Bool.true_and, bind, Except.bind, pure, Except.pure, ne_eq,
+    simp only [hcs, htc, htu, hpt, hpath, hstrict, Bool.true_and, bind, Except.bind, pure, Except.pure, ne_eq,
       not_true_eq_false, if_false, Nat.lt_irrefl, decide_false, Bool.false_eq_true, gt_iff_lt]
     have hin : ¬ (pos < 4 ∨ footerStart < pos + (pagesBytes (deps o) ps).length) := by omega
-    simp only [hin, if_false, hslice, hchunk]
+    simp only [hin, if_false, hslice, hchunk, husize, not_true_eq_false]
     rw [m2] at ih
     rw [hfile2, ih]
     simp [Nat.add_assoc]
@@ -271,7 +274,7 @@ theorem readRowGroups_written (o : FileReal.Oracle) (cfg : Config) (hstrict : cf
     simp [readRowGroups, dataBytes]
   | gm :: gms, g :: gs, pos, pre, post, hall, hat, hfor, hof, hgood, hrz, hal, hfz, hsmall, hpre, h4, hfs => by
     obtain ⟨hall1, hall'⟩ := hall
-    obtain ⟨_, a2, a3, _, hat'⟩ := hat
+    obtain ⟨_, a2, a3, a4, hat'⟩ := hat
     obtain ⟨z1, hrz'⟩ := hrz
     have hsz := chunksSize_eq_groupBytes (deps o) codec gm.chunks g hall1
     rw [dataBytes_cons] at hfs ⊢
@@ -295,7 +298,9 @@ theorem readRowGroups_written (o : FileReal.Oracle) (cfg : Config) (hstrict : cf
     unfold readRowGroups
     simp only [rgMetaOf, bind, Except.bind, pure, Except.pure]
     rw [hf1, hchunks]
-    simp only [hrows, Bool.not_true, Bool.false_eq_true, if_false]
+    have hbs : ((gm.chunks.map cmOf).map (·.totalUncompressed)).sum = gm.totalByteSize := by
+      rw [a4, List.map_map]; rfl
+    simp only [hrows, Bool.not_true, Bool.false_eq_true, if_false, hbs, ne_eq, not_true_eq_false]
     rw [← hf1, hf2, ih]
     simp [groupTable, Nat.add_assoc]
   | [], _ :: _, _, _, _, hall, _, _, _, _, _, _, _, _, _, _, _ => by simp [AllGroups] at hall
